@@ -51,10 +51,9 @@ RULE_MSG = ("cases = terminal states of the TLC exploration of spec/MessageParse
 def check_c01(tier, t0):
     r = msglevel.run_pipeline("C01", tier)
     vio = list(r["summary"]["props"]["C01"]["violations"])
-    flagged_ids = {v["replay"]["case"].get("id") for v in vio}
     io_ids = set()
     for v in vio:
-        io_ids.add(json.dumps(v["replay"]["case"], sort_keys=True))
+        io_ids.add(json.dumps(v["replay"].get("case", v["replay"]), sort_keys=True))
     # trace-derived: accepted runs that needed a deviation / did not take every field
     mech_count = {}
     for t in r["trace"]["results"]:
@@ -107,6 +106,22 @@ def table_notes():
     return notes
 
 
+def run_envelope(wd, tier):
+    """Envelope.tla cases through the envelope harness (C10's own findings plus the C02 / C08 observations)"""
+    from common import run_tlc, tlc_require_clean, extract_json_lines
+    ecfg = "Envelope_thorough.cfg" if tier == "thorough" else "Envelope_quick.cfg"
+    emc = run_tlc("Envelope.tla", ecfg, wd, timeout=1800)
+    if emc["violated"]:
+        raise ToolError("design-level invariant %s violated in Envelope.tla" % emc["violated"])
+    tlc_require_clean(emc, "Envelope")
+    ecases = os.path.join(wd, "envelope_cases.ndjson")
+    extract_json_lines(emc["out_path"], ecases)
+    os.remove(emc["out_path"])
+    eout = os.path.join(wd, "envelope_out.json")
+    run_harness(["envelope", "--cases", ecases, "--out", eout])
+    return json.load(open(eout)), emc, ecfg
+
+
 def check_c02(tier, t0):
     from common import workdir
     r = msglevel.run_pipeline("C02", tier)
@@ -126,12 +141,22 @@ def check_c02(tier, t0):
                         "replay": {"kind": "field", "tag": nt["tag"], "content": nt["content"], "serialised": nt.get("ser")}})
     log("[C02] field level: %d accepted contents of %d field types re-parsed from their own serialisation, %d mismatch signatures" %
         (s["c02_evaluated"], s["fields"], len(s["c02_violations"])))
+    # envelope level: every admitted header / trailer shape of Envelope.tla
+    es, emc, ecfg = run_envelope(wd, tier)
+    vio += [{"sig": v["sig"], "replay": v["replay"]} for v in es["c02_violations"]]
+    log("[C02] envelope level: %d admitted header / trailer shapes re-parsed from their own serialisation, %d mismatches" %
+        (es["c02_evaluated"], len(es["c02_violations"])))
     cov = _msg_cov(r, "C02", RULE_MSG + "; field level: every content of the FieldFormats shape space (" + cfg +
                    ") that the field's parser accepts, serialised, re-parsed and compared in value and text")
     cov["states"] += mc["distinct"]
     cov["transitions"] += mc["generated"]
     cov["evaluations"] += s["c02_evaluated"]
     cov["field_level_contents"] = s["c02_evaluated"]
+    cov["states"] += emc["distinct"]
+    cov["transitions"] += emc["generated"]
+    cov["evaluations"] += es["c02_evaluated"]
+    cov["envelope_level_shapes"] = es["c02_evaluated"]
+    cov["rule"] += "; envelope level: every admitted shape of Envelope.tla (" + ecfg + ") serialised, re-parsed and compared"
     return report("C02", tier, "model_checking", vio, cov, MSG_ASSUMPTIONS, t0)
 
 
@@ -173,7 +198,18 @@ def replay(prop, path):
             print("not reproduced: %s" % data.get("signature"))
             return 0
         raise ToolError("harness failed: %s" % r.stderr[-400:])
-    raise ToolError("no replay procedure for %s with this file" % prop)
+    # every other kind of record: re-run the check that wrote it (the tier named in the file, else quick and,
+    # if the signature does not show there, thorough) and ask only whether the signature shows again
+    import time
+    import common
+    common.REPLAY.update(sig=data.get("signature"), path=path, found=False)
+    tiers = [data["tier"]] if data.get("tier") in ("quick", "thorough") else ["quick", "thorough"]
+    rc = 0
+    for tier in tiers:
+        rc = CHECKS[prop](tier, time.time())
+        if rc != 0:
+            break
+    return rc
 
 
 # ------------------------------------------------------------------------------------------------
@@ -704,16 +740,20 @@ def check_c08(tier, t0):
     run_harness(["json", "--walks", walks, "--fields", cases, "--out", out, "--policies", "4" if tier == "thorough" else "3"])
     s = json.load(open(out))
     vio = [{"sig": v["sig"], "replay": v["replay"]} for v in s["violations"]]
-    log("[C08] %d messages and %d field values through to_value / from_value / publish_mt / parse_mt, %d mismatch signatures" %
-        (s["evaluated"], s["field_level"], len(vio)))
+    es, emc, ecfg = run_envelope(wd, tier)
+    vio += [{"sig": v["sig"], "replay": v["replay"]} for v in es["c08_violations"]]
+    log("[C08] %d messages, %d field values and %d envelope shapes through to_value / from_value / publish_mt / parse_mt, %d mismatch signatures" %
+        (s["evaluated"], s["field_level"], es["c08_evaluated"], len(vio)))
     cov = {
-        "states": mc["distinct"] + mcw["distinct"] + mcf["distinct"],
-        "transitions": mc["generated"] + mcw["generated"] + mcf["generated"],
+        "states": mc["distinct"] + mcw["distinct"] + mcf["distinct"] + emc["distinct"],
+        "transitions": mc["generated"] + mcw["generated"] + mcf["generated"] + emc["generated"],
         "traces_validated_against_impl": 0,
-        "evaluations": s["evaluated"] + s["field_level"], "distinct_nontrivial": s["distinct_nontrivial"] + s["field_level"],
+        "evaluations": s["evaluated"] + s["field_level"] + es["c08_evaluated"], "distinct_nontrivial": s["distinct_nontrivial"] + s["field_level"],
+        "envelope_level_shapes": es["c08_evaluated"],
         "rule": "every unmutated layout walk of the 30 types x content policies (typical / alternative / boundary shapes), plus per type "
                 "5 application-header shapes x {no block 3, all 13 block-3 tags, + trailer}, plus every accepted content of the FieldFormats "
-                "shape space at field level; per value: from_value(to_value(v)) equal in JSON and MT text, publish_mt(json) = "
+                "shape space at field level, plus every admitted shape of Envelope.tla (headers with and without a real branch code, block-3 "
+                "and block-5 tag subsets); per value: from_value(to_value(v)) equal in JSON and MT text, publish_mt(json) = "
                 "to_mt_message, parse_mt JSON = typed JSON, no empty placeholder under a tag key, numbers finite",
         "samples": s["samples"] or [{}],
         "exhaustive": False,
